@@ -58,8 +58,17 @@ def base_packets():
     P.append(hdr(6, 0x8000, 1, 0, 0, 0) + q)
     # 6: single answer (first/last/only record of its section), root question
     P.append(hdr(7, 0x8180, 1, 1, 0, 0) + [0, 0, 1, 0, 1] + rr([0], 1, 1, [1, 1, 1, 1]))
+    # 8 (appended below): records that point at names of earlier records of their own section
     # 7: OPT first then two records that share a suffix, DNAME in authority
     P.append(hdr(8, 0x8180, 1, 0, 1, 3) + q + rr(ptr(14), 39, 10, name("d", "ex")) + opt() + rr([1, 97] + ptr(14), 1, 2, [1, 0, 0, 1]) + rr([1, 98] + ptr(14), 28, 2, [0] * 16))
+    base = 12 + len(q)
+    an_a = rr(name("sip", "ex"), 1, 11, [1, 1, 1, 1])
+    an_b = rr(ptr(base), 28, 12, [0] * 15 + [1])
+    ar0 = base + len(an_a) + len(an_b)
+    ar_a = rr(name("glue", "ex"), 1, 21, [2, 2, 2, 2])
+    ar_b = rr(ptr(ar0), 28, 22, [0] * 15 + [2])
+    ar_c = rr([1, 119] + ptr(ar0), 1, 23, [3, 3, 3, 3])
+    P.append(hdr(9, 0x8180, 1, 2, 0, 4) + q + an_a + an_b + ar_a + ar_b + opt() + ar_c)
     return P
 
 
@@ -181,7 +190,7 @@ def histories(seed, tier, extra_packets=()):
     out = []
     so, co = simple_ops(), cursor_ops()
     # every single operation on every base packet (and on the two synthesised packets)
-    for b in bases[:8]:
+    for b in bases[:9]:
         for o in so + co:
             out.append(scen(b, [o]))
     for syn in ("empty", "example.com"):
@@ -195,7 +204,7 @@ def histories(seed, tier, extra_packets=()):
               cursor_op("AR", True, 1, [("delete", [])]), cursor_op("AN", False, 0, [("uncompress", [])]), cursor_op("AN", False, 0, [("delete", [])]),
               cursor_op("AR", True, 0, [("set_ttl", [1, 2, 128, 0])]), cursor_op("AR", True, 1, [("set_raw_name", name("a"))])]
     step = 3 if tier == "quick" else 1
-    for bi, b in enumerate(bases[:8]):
+    for bi, b in enumerate(bases[:9]):
         for fi, f in enumerate(firsts):
             seconds = (so + co)[(bi + fi) % step::step]
             if tier == "quick":
@@ -223,12 +232,13 @@ def walk_packets(maxn, rnd=None):
     """yields (packet, section, list of ttl identities in wire order, index of OPT or None)"""
     out = []
     q = name("w", "ex") + [0, 1, 0, 1]
-    for compressed in (False, True):
+    for compressed in (False, True, "chain"):
         for sec in ("AN", "NS", "AR"):
             for n in range(0, maxn + 1):
                 opt_positions = [None] + (list(range(n)) if sec == "AR" else [])
                 for op in opt_positions:
                     recs, ids = [], []
+                    prev_owner = None            # offset of the previous ordinary record's owner name (chain layout)
                     for i in range(n):
                         ttl = 100 + i
                         if op == i:
@@ -237,12 +247,19 @@ def walk_packets(maxn, rnd=None):
                             r = [0, 0, 41, 4, 208] + list(ttl.to_bytes(4, "big")) + [0, 4, 0, 10, 0, 0]
                         else:
                             kind = i % 3
-                            if compressed:
+                            here = 12 + len(q) + len(recs)
+                            if compressed == "chain":
+                                # every owner hangs on the previous record of the same section
+                                owner = name("sip", "ex") if prev_owner is None else ([ptr(prev_owner), [1, 97 + i] + ptr(prev_owner), ptr(prev_owner)][kind])
+                                prev_owner = here
+                            elif compressed:
                                 owner = [ptr(12), [1, 97 + i] + ptr(14), ptr(12)][kind]
                             else:
                                 owner = [name("w", "ex"), name(chr(97 + i), "ex"), name("w", "ex")][kind]
                             if kind == 2:
                                 rd = (ptr(14) if compressed else name("ex"))
+                                if compressed == "chain" and here > 12 + len(q):
+                                    rd = ptr(here - 0) if False else ptr(14)
                                 r = rr(owner, 2, ttl, rd)
                             else:
                                 r = rr(owner, 1, ttl, [10, 0, 0, i])
